@@ -402,7 +402,10 @@ func c19IsCurrentName(v ssa.Value) bool {
 // c19NotCurrent: the atom "e is not the current log file" – a comparison of e with the rule's
 // file name (== / !=, either operand order, filepath.Clean on either side), or a call of an
 // in-package function that returns such a comparison of the parameter e is passed at.
-func c19NotCurrent(e ssa.Value, inPkg func(*ssa.Function) bool) core.Atom {
+//
+// rec, when not nil, is told every such comparison met (the comparison, its operand that is the
+// rule's file name and its operand that is the listed name) – see c19_r10.go.
+func c19NotCurrent(e ssa.Value, inPkg func(*ssa.Function) bool, rec func(cmp *ssa.BinOp, name, listed ssa.Value)) core.Atom {
 	var pol func(v ssa.Value, e ssa.Value, depth int) (bool, bool)
 	pol = func(v ssa.Value, e ssa.Value, depth int) (bool, bool) {
 		flip := false
@@ -419,7 +422,16 @@ func c19NotCurrent(e ssa.Value, inPkg func(*ssa.Function) bool) core.Atom {
 			if x.Op != token.EQL && x.Op != token.NEQ {
 				return false, false
 			}
-			if (c19SameElem(x.X, e) && c19IsCurrentName(x.Y)) || (c19SameElem(x.Y, e) && c19IsCurrentName(x.X)) {
+			if c19SameElem(x.X, e) && c19IsCurrentName(x.Y) {
+				if rec != nil {
+					rec(x, x.Y, x.X)
+				}
+				return true, (x.Op == token.NEQ) != flip
+			}
+			if c19SameElem(x.Y, e) && c19IsCurrentName(x.X) {
+				if rec != nil {
+					rec(x, x.X, x.Y)
+				}
 				return true, (x.Op == token.NEQ) != flip
 			}
 		case *ssa.Call:
@@ -580,206 +592,12 @@ func c19R9(r *core.Run, pkg string) {
 		}
 		w := c19NewIngWalker(p, pkg)
 		mcSites, _ := c19ClosureSites(p.PkgFuncs(pkg))
-		isGlob := core.CallTo("path/filepath.Glob")
 		for _, rt := range rules {
 			r.Fn(core.FuncName(rt.outdated))
-			fns := w.reachable(rt.outdated, 3)
-			globs := 0
-			for _, g := range fns {
-				globs += len(core.Calls(g, isGlob))
-			}
+			globs, sites, fails := c19ListedScan(w, mcSites, rt, nil)
 			if globs == 0 {
 				o.Unres("%s: no filepath.Glob reachable from OutdatedFiles", rt.name)
 				continue
-			}
-			taintP := map[*ssa.Parameter]bool{}
-			var rawList func(v ssa.Value, seen map[ssa.Value]bool, depth int) bool
-			rawList = func(v ssa.Value, seen map[ssa.Value]bool, depth int) bool {
-				v = core.Strip(core.Forward(v))
-				if v == nil || seen[v] || depth > 4 {
-					return false
-				}
-				seen[v] = true
-				switch x := v.(type) {
-				case *ssa.Extract:
-					c, ok := x.Tuple.(*ssa.Call)
-					if !ok {
-						return false
-					}
-					if isGlob(c) {
-						return x.Index == 0
-					}
-					if callee := c.Call.StaticCallee(); w.inPkg(callee) {
-						for _, ret := range core.Returns(callee) {
-							if x.Index < len(ret.Results) && rawList(ret.Results[x.Index], seen, depth+1) {
-								return true
-							}
-						}
-					}
-				case *ssa.Phi:
-					for _, ed := range x.Edges {
-						if rawList(ed, seen, depth) {
-							return true
-						}
-					}
-				case *ssa.Slice:
-					if x.High != nil {
-						if c, ok := core.ConstInt(x.High); ok && c == 0 {
-							return false // an empty list (the files[:0] idiom re-uses the array only)
-						}
-					}
-					return rawList(x.X, seen, depth)
-				case *ssa.Parameter:
-					return taintP[x]
-				case *ssa.Call:
-					if core.CalleeName(x) == "builtin:append" {
-						for _, a := range x.Call.Args {
-							if rawList(a, seen, depth) {
-								return true
-							}
-						}
-						return false
-					}
-					if callee := x.Call.StaticCallee(); w.inPkg(callee) {
-						for _, ret := range core.Returns(callee) {
-							if len(ret.Results) > 0 && rawList(ret.Results[0], seen, depth+1) {
-								return true
-							}
-						}
-					}
-				}
-				return false
-			}
-			isRaw := func(v ssa.Value) bool {
-				if _, ok := v.Type().Underlying().(*types.Slice); !ok {
-					return false
-				}
-				return rawList(v, map[ssa.Value]bool{}, 0)
-			}
-			var elem func(v ssa.Value, depth int) bool
-			elem = func(v ssa.Value, depth int) bool {
-				if depth > 6 {
-					return false
-				}
-				v = c19ElemNorm(v)
-				if b, ok := v.Type().Underlying().(*types.Basic); !ok || b.Info()&types.IsString == 0 {
-					return false
-				}
-				switch x := v.(type) {
-				case *ssa.UnOp:
-					if ia, ok := x.X.(*ssa.IndexAddr); ok && x.Op == token.MUL {
-						return isRaw(ia.X)
-					}
-				case *ssa.Parameter:
-					return taintP[x]
-				case *ssa.Phi:
-					for _, ed := range x.Edges {
-						if elem(ed, depth+1) {
-							return true
-						}
-					}
-				}
-				return false
-			}
-			inSet := map[*ssa.Function]bool{}
-			for _, g := range fns {
-				inSet[g] = true
-			}
-			type fail struct {
-				at   ssa.Instruction
-				what string
-			}
-			// one pass over the functions: the places where a listed name is handed on, the unguarded
-			// ones among them, and the parameters that receive a listed name unguarded
-			pass := func() (sites int, fails []fail, grew bool) {
-				for _, g := range fns {
-					guarded := func(site ssa.Instruction, e ssa.Value) bool {
-						at := c19NotCurrent(e, w.inPkg)
-						return core.EdgeCount(g, at) > 0 && core.Requires(g, core.Is(site), at) == nil
-					}
-					for _, b := range g.Blocks {
-						for _, in := range b.Instrs {
-							switch x := in.(type) {
-							case *ssa.MapUpdate:
-								if elem(x.Key, 0) {
-									sites++
-									if !guarded(in, x.Key) {
-										fails = append(fails, fail{in, "recorded as a map key"})
-									}
-								}
-							case *ssa.Store:
-								if _, isStr := x.Val.Type().Underlying().(*types.Basic); !isStr || !elem(x.Val, 0) {
-									continue
-								}
-								switch x.Addr.(type) {
-								case *ssa.IndexAddr, *ssa.FieldAddr, *ssa.Global:
-									sites++
-									if !guarded(in, x.Val) {
-										fails = append(fails, fail{in, "appended to a list / stored"})
-									}
-								}
-							case *ssa.Send:
-								if elem(x.X, 0) {
-									sites++
-									if !guarded(in, x.X) {
-										fails = append(fails, fail{in, "sent on a channel"})
-									}
-								}
-							case *ssa.Return:
-								if g != rt.outdated {
-									continue
-								}
-								for _, res := range x.Results {
-									if isRaw(res) {
-										sites++
-										fails = append(fails, fail{in, "returned with the whole list of matches, as it is"})
-									}
-								}
-							case ssa.CallInstruction:
-								cc := x.Common()
-								if cc.IsInvoke() {
-									continue
-								}
-								callee := cc.StaticCallee()
-								if callee == nil {
-									callee = c19FuncOf(cc.Value, mcSites)
-								}
-								if _, isBuiltin := cc.Value.(*ssa.Builtin); isBuiltin {
-									continue
-								}
-								for j, a := range cc.Args {
-									isE, isL := elem(a, 0), isRaw(a)
-									if !isE && !isL {
-										continue
-									}
-									switch {
-									case callee != nil && callee.Blocks != nil && inSet[callee]:
-										if j < len(callee.Params) && !taintP[callee.Params[j]] && (isL || !guarded(in, a)) {
-											taintP[callee.Params[j]] = true
-											grew = true
-										}
-									case callee == nil && isE:
-										// a function value of unknown body (a callback parameter)
-										sites++
-										if !guarded(in, a) {
-											fails = append(fails, fail{in, "passed to a callback"})
-										}
-									}
-								}
-							}
-						}
-					}
-				}
-				return
-			}
-			var sites int
-			var fails []fail
-			for i := 0; i < 6; i++ {
-				var grew bool
-				sites, fails, grew = pass()
-				if !grew {
-					break
-				}
 			}
 			o.Site(globs+sites, rt.name)
 			if sites == 0 {
@@ -796,6 +614,212 @@ func c19R9(r *core.Run, pkg string) {
 			}
 		}
 	})
+}
+
+// c19ListFail: a place where a listed name is handed on without the comparison.
+type c19ListFail struct {
+	at   ssa.Instruction
+	what string
+}
+
+// c19ListedScan follows the names listed by filepath.Glob through the functions reachable from the
+// rule's OutdatedFiles: the number of Glob calls, of places where a listed name is handed on, and
+// the unguarded ones among them. rec (may be nil) is told the comparisons of a listed name with
+// the rule's own file name that were met as guards.
+func c19ListedScan(w *c19IngWalker, mcSites map[*ssa.Function][]*ssa.MakeClosure, rt c19RuleType, rec func(cmp *ssa.BinOp, name, listed ssa.Value)) (globs, sites int, fails []c19ListFail) {
+	type fail = c19ListFail
+	isGlob := core.CallTo("path/filepath.Glob")
+	fns := w.reachable(rt.outdated, 3)
+	for _, g := range fns {
+		globs += len(core.Calls(g, isGlob))
+	}
+	if globs == 0 {
+		return
+	}
+	taintP := map[*ssa.Parameter]bool{}
+	var rawList func(v ssa.Value, seen map[ssa.Value]bool, depth int) bool
+	rawList = func(v ssa.Value, seen map[ssa.Value]bool, depth int) bool {
+		v = core.Strip(core.Forward(v))
+		if v == nil || seen[v] || depth > 4 {
+			return false
+		}
+		seen[v] = true
+		switch x := v.(type) {
+		case *ssa.Extract:
+			c, ok := x.Tuple.(*ssa.Call)
+			if !ok {
+				return false
+			}
+			if isGlob(c) {
+				return x.Index == 0
+			}
+			if callee := c.Call.StaticCallee(); w.inPkg(callee) {
+				for _, ret := range core.Returns(callee) {
+					if x.Index < len(ret.Results) && rawList(ret.Results[x.Index], seen, depth+1) {
+						return true
+					}
+				}
+			}
+		case *ssa.Phi:
+			for _, ed := range x.Edges {
+				if rawList(ed, seen, depth) {
+					return true
+				}
+			}
+		case *ssa.Slice:
+			if x.High != nil {
+				if c, ok := core.ConstInt(x.High); ok && c == 0 {
+					return false // an empty list (the files[:0] idiom re-uses the array only)
+				}
+			}
+			return rawList(x.X, seen, depth)
+		case *ssa.Parameter:
+			return taintP[x]
+		case *ssa.Call:
+			if core.CalleeName(x) == "builtin:append" {
+				for _, a := range x.Call.Args {
+					if rawList(a, seen, depth) {
+						return true
+					}
+				}
+				return false
+			}
+			if callee := x.Call.StaticCallee(); w.inPkg(callee) {
+				for _, ret := range core.Returns(callee) {
+					if len(ret.Results) > 0 && rawList(ret.Results[0], seen, depth+1) {
+						return true
+					}
+				}
+			}
+		}
+		return false
+	}
+	isRaw := func(v ssa.Value) bool {
+		if _, ok := v.Type().Underlying().(*types.Slice); !ok {
+			return false
+		}
+		return rawList(v, map[ssa.Value]bool{}, 0)
+	}
+	var elem func(v ssa.Value, depth int) bool
+	elem = func(v ssa.Value, depth int) bool {
+		if depth > 6 {
+			return false
+		}
+		v = c19ElemNorm(v)
+		if b, ok := v.Type().Underlying().(*types.Basic); !ok || b.Info()&types.IsString == 0 {
+			return false
+		}
+		switch x := v.(type) {
+		case *ssa.UnOp:
+			if ia, ok := x.X.(*ssa.IndexAddr); ok && x.Op == token.MUL {
+				return isRaw(ia.X)
+			}
+		case *ssa.Parameter:
+			return taintP[x]
+		case *ssa.Phi:
+			for _, ed := range x.Edges {
+				if elem(ed, depth+1) {
+					return true
+				}
+			}
+		}
+		return false
+	}
+	inSet := map[*ssa.Function]bool{}
+	for _, g := range fns {
+		inSet[g] = true
+	}
+	// one pass over the functions: the places where a listed name is handed on, the unguarded
+	// ones among them, and the parameters that receive a listed name unguarded
+	pass := func() (sites int, fails []fail, grew bool) {
+		for _, g := range fns {
+			guarded := func(site ssa.Instruction, e ssa.Value) bool {
+				at := c19NotCurrent(e, w.inPkg, rec)
+				return core.EdgeCount(g, at) > 0 && core.Requires(g, core.Is(site), at) == nil
+			}
+			for _, b := range g.Blocks {
+				for _, in := range b.Instrs {
+					switch x := in.(type) {
+					case *ssa.MapUpdate:
+						if elem(x.Key, 0) {
+							sites++
+							if !guarded(in, x.Key) {
+								fails = append(fails, fail{in, "recorded as a map key"})
+							}
+						}
+					case *ssa.Store:
+						if _, isStr := x.Val.Type().Underlying().(*types.Basic); !isStr || !elem(x.Val, 0) {
+							continue
+						}
+						switch x.Addr.(type) {
+						case *ssa.IndexAddr, *ssa.FieldAddr, *ssa.Global:
+							sites++
+							if !guarded(in, x.Val) {
+								fails = append(fails, fail{in, "appended to a list / stored"})
+							}
+						}
+					case *ssa.Send:
+						if elem(x.X, 0) {
+							sites++
+							if !guarded(in, x.X) {
+								fails = append(fails, fail{in, "sent on a channel"})
+							}
+						}
+					case *ssa.Return:
+						if g != rt.outdated {
+							continue
+						}
+						for _, res := range x.Results {
+							if isRaw(res) {
+								sites++
+								fails = append(fails, fail{in, "returned with the whole list of matches, as it is"})
+							}
+						}
+					case ssa.CallInstruction:
+						cc := x.Common()
+						if cc.IsInvoke() {
+							continue
+						}
+						callee := cc.StaticCallee()
+						if callee == nil {
+							callee = c19FuncOf(cc.Value, mcSites)
+						}
+						if _, isBuiltin := cc.Value.(*ssa.Builtin); isBuiltin {
+							continue
+						}
+						for j, a := range cc.Args {
+							isE, isL := elem(a, 0), isRaw(a)
+							if !isE && !isL {
+								continue
+							}
+							switch {
+							case callee != nil && callee.Blocks != nil && inSet[callee]:
+								if j < len(callee.Params) && !taintP[callee.Params[j]] && (isL || !guarded(in, a)) {
+									taintP[callee.Params[j]] = true
+									grew = true
+								}
+							case callee == nil && isE:
+								// a function value of unknown body (a callback parameter)
+								sites++
+								if !guarded(in, a) {
+									fails = append(fails, fail{in, "passed to a callback"})
+								}
+							}
+						}
+					}
+				}
+			}
+		}
+		return
+	}
+	for i := 0; i < 6; i++ {
+		var grew bool
+		sites, fails, grew = pass()
+		if !grew {
+			break
+		}
+	}
+	return
 }
 
 // c19ValuePos: where a value is computed (its instruction), for messages.
